@@ -19,6 +19,7 @@ import (
 	"harness/sim"
 
 	"github.com/welllog/golib/zzsim/core"
+	"github.com/welllog/golib/zzsim/ssync"
 )
 
 // Instance is one freshly built structure under test.
@@ -66,6 +67,8 @@ func coreCfg(c *sim.Case, script []int16, strict, keepLog bool) core.Config {
 
 // Exec runs one case.  script==nil: the case's policy decides; otherwise replay.
 func Exec(spec *Spec, c *sim.Case, script []int16, strict, keepLog bool, out *sim.WorkerOut) (*Run, *sim.Violation) {
+	sim.SetCurrent(c)
+	sim.SetSite(spec.ID)
 	core.EnvSeed(c.EnvSeed)
 	inst := spec.New(c)
 	n := len(c.Programs)
@@ -111,6 +114,10 @@ func safeCheck(spec *Spec, run *Run) (v *sim.Violation) {
 		if r := recover(); r != nil {
 			stk := string(debug.Stack())
 			fs := golibFuncs(stk)
+			if r == ssync.ErrHeld && len(fs) > 0 {
+				v = &sim.Violation{Class: "lock_leaked", Site: fs[0], Detail: "every thread has finished but the structure's lock is still held: an operation returned without unlocking"}
+				return
+			}
 			if len(fs) == 0 {
 				panic(r) // the harness's own bug: die loudly (exit 2)
 			}
@@ -279,6 +286,13 @@ func Main(spec *Spec) {
 	start := time.Now()
 	out := sim.NewWorkerOut(spec.ID, *worker)
 
+	if *mode == "replay" {
+		sim.HangAfter = 6 * time.Second // a single case takes milliseconds
+	}
+	sim.StartWatchdog(out, func() {
+		out.WallMs = time.Since(start).Milliseconds()
+		sim.WriteJSON(*outPath, out)
+	})
 	if *mode == "replay" {
 		c, err := sim.LoadCase(*casePath)
 		if err != nil {
